@@ -14,6 +14,7 @@ import (
 func init() { Registry["C18"] = c18 }
 
 func c18(r *Report) {
+	defer c18Seed9(r)
 	defer c18Seed8(r)
 	defer c18Seed7(r)
 	defer c18Seed5(r)
